@@ -177,6 +177,42 @@ def check_c18(a, seed, t0):
     return rc
 
 
+def bounded_only(pid, a, seed, t0, reason):
+    """The whole tree could not be brought before the verifier (extraction failed): the bounded native oracle is the
+    only thing left; labelled bounded, evidence level exploration."""
+    try:
+        import native
+        r = native.sweep([pid], 'thorough' if a.tier == 'thorough' else 'quick', seed)
+    except Exception as e:
+        print('UNDECIDED property=%s reason=%s; bounded native oracle unavailable: %s' % (pid, reason, str(e)[:200]))
+        return 2
+    nf = [f for f in r['failures'] if f['property'] == pid]
+    rc = 0
+    if nf:
+        import hashlib
+        os.makedirs(os.path.join(VERIF, 'replays'), exist_ok=True)
+        path = os.path.join(VERIF, 'replays', '%s-native-%s.json' % (pid, hashlib.sha1(json.dumps(nf[0], sort_keys=True).encode()).hexdigest()[:12]))
+        json.dump({'property': pid, 'decided_by': 'bounded native oracle (deductive check undecided: %s)' % reason,
+                   'failed_obligations': [{'obligation': 'native::%s' % f['check'], 'message': f['detail']} for f in nf],
+                   'input': {'case': nf[0]['case'], 'clause': nf[0]['check'], 'observed': nf[0]['detail'], 'reproduce_rust': native.rust_snippet(nf[0]['case'])},
+                   'native_cmd': r['cmd'], 'bound': r['bound']}, open(path, 'w'), indent=1)
+        for f in nf[:5]:
+            print('FAILED-OBLIGATION property=%s native::%s :: %s' % (pid, f['check'], f['detail']))
+        print('VIOLATION property=%s replay=%s' % (pid, path))
+        rc = 1
+    else:
+        print('BOUNDED property=%s nothing could be verified deductively in this tree (%s); bounded native oracle: %s; 0 failing cases' % (pid, reason, r['bound']))
+    ev = {'property_id': pid, 'tier': a.tier if a.tier in ('quick', 'thorough') else 'quick', 'seed': seed, 'level': 'exploration',
+          'coverage': {'evaluations': r['summary'].get('builds', 0), 'distinct_nontrivial': r['summary'].get('distinct_cases', 0),
+                       'rule': 'BOUNDED stand-in only (deductive check undecided: %s): %s' % (reason, r['bound']), 'samples': r['summary'].get('samples', [])[:5] or ['(none)'],
+                       'obligations': 0, 'discharged': 0, 'checker_cmd': r['cmd']},
+          'assumptions': ['no obligation was discharged in this run'], 'wall_s': round(time.time() - t0, 2), 'violations': len(nf)}
+    evdir = os.environ.get('VERIF_EVIDENCE_DIR') or os.path.join(VERIF, 'evidence')
+    os.makedirs(evdir, exist_ok=True)
+    json.dump(ev, open(os.path.join(evdir, pid + '.json'), 'w'), indent=1)
+    return rc
+
+
 def main():
     ap = argparse.ArgumentParser()
     ap.add_argument('prop')
@@ -214,8 +250,8 @@ def main():
     try:
         V = verify_tree()
     except vrun.Undecided as e:
-        print('UNDECIDED property=%s reason=%s' % (pid, e))
-        return 2
+        print('UNDECIDED-BY-PROOF property=%s reason=%s' % (pid, e))
+        return bounded_only(pid, a, seed, t0, str(e))
     b, fails, tool, res = V['build'], V['failures'], V['tool'], V['res']
     mine = []
     try:
